@@ -40,6 +40,14 @@ def gen(ctx):
         sh = r.choice([(0,), (1,), (5,), (2, 2), (1, 2, 2), (0, 2, 1), (3, 1)])
         letters = [r.choice(ALPHABET) for _ in range(r.randint(3, 10 if ctx.quick else 30))]
         cases.append(history_case(r, nt, bo, sh, letters))
+    # truncation indices that are NumPy integers of a narrow type, large enough for the byte offset of the cut
+    # to overflow that type (they are refused as non-ints; a change that accepts them must still cut correctly)
+    for k, (nt, sh, idx, kind) in enumerate([('float64', (40, 10), 30, 'npuint8'), ('int64', (300,), 200, 'npint16'),
+                                             ('complex128', (20, 4), 9, 'npuint8'), ('float64', (40, 10), 30, 'npint')]):
+        c = history_case(r, nt, ('little', 'big')[k % 2], sh, ['a1', 'ro'])
+        c['ops'] = [dict(op='truncate', index=idx, nonint=kind)] + c['ops']
+        c['letters'] = ['tni'] + c['letters']
+        cases.append(c)
     return cases
 
 
